@@ -114,6 +114,10 @@ def main():
                 c.violation("C03:%s:hop%d:big:%s" % (name.replace(" ", ""), hop, st["name"] if st else "?"), rr["msg"],
                             {"pad": pad, "chain": name, "hop": hop, "stderr": rr.get("stderr"), "note": "values: spec/wire/WireBig.tla with VERIF_PAD=%d" % pad})
         c.cov["large_payload_chains"] = len(pads) * len(bigchains)
+    # ---- stream / non-stream patterns (NdjsonReader.tla) as cross-language chains: NDJSON -> binary by one language, binary -> NDJSON
+    #      by the other; adjacent and empty streams included
+    import patterns
+    patterns.run_chains(c, sc, yardl, home, thorough, "C03")
     c.cov["packages"] = len(good)
     c.cov["chains"] = ["%s:%s->%s then %s:%s->binary" % (a, FMT[f0], FMT[f1], b, FMT[f1]) for a, b, f0, f1 in chains]
     c.cov["states"] = len(cases) + len(cases2)
